@@ -32,7 +32,8 @@ def main():
         demo_src = os.path.join(out, cands[0])
     wt = "/tmp/seed/confirm_" + name
     sh("git -C /repo worktree remove --force %s" % wt)
-    rc, o = sh("git -C /repo worktree add -q %s HEAD" % wt)
+    base = os.environ.get("SEED_BASE", "HEAD")  # a seed written against an earlier commit of /repo (before a later fix: touched the same lines)
+    rc, o = sh("git -C /repo worktree add -q %s %s" % (wt, base))
     ran = []
     try:
         rc, o = sh("git apply %s" % patch, cwd=wt)
@@ -69,7 +70,7 @@ def main():
     wt2 = "/tmp/seed/run_" + name
     sc2 = "/tmp/seed/scratch_" + name
     sh("git -C /repo worktree remove --force %s" % wt2)
-    sh("git -C /repo worktree add -q %s HEAD" % wt2)
+    sh("git -C /repo worktree add -q %s %s" % (wt2, base))
     results = {}
     try:
         rc, o = sh("git apply %s" % patch, cwd=wt2)
@@ -99,7 +100,7 @@ def main():
     if os.path.exists(meta_path):
         meta = json.load(open(meta_path))
     meta.update({"name": name, "breaks_property": prop, "demo_path": demo_rel, "source": "independent sub-agent given only the property text and a scratch worktree",
-                 "confirmed_by": ran, "base_commit": subprocess.run("git -C /repo rev-parse --short HEAD", shell=True, stdout=subprocess.PIPE, text=True).stdout.strip()})
+                 "confirmed_by": ran, "base_commit": subprocess.run("git -C /repo rev-parse --short %s" % base, shell=True, stdout=subprocess.PIPE, text=True).stdout.strip()})
     meta.setdefault("check_results", {}).update(results)
     json.dump(meta, open(meta_path, "w"), indent=1)
     return 0
